@@ -597,32 +597,6 @@ func (s *Sim) GScript() string {
 // ProbeSigners uses every signer object Signers() returns: the signature verifies under the signer's own public key,
 // and for an RSA key it is made with the algorithm that was asked for.  A locked or closed shim hands out nothing.
 func (s *Sim) ProbeSigners() {
-	// a missing key argument is refused by every operation that takes one: an error, not a crash, nothing changes
-	before := s.Observe()
-	for _, probe := range []struct {
-		name string
-		f    func() error
-	}{
-		{"Sign(nil)", func() error { _, e := s.Shim.Sign(nil, []byte("x")); return e }},
-		{"SignWithFlags(nil)", func() error { _, e := s.Shim.SignWithFlags(nil, []byte("x"), 0); return e }},
-		{"Remove(nil)", func() error { return s.Shim.Remove(nil) }},
-		{"AddHardCert(nil)", func() error { return s.Shim.AddHardCert(nil, "comment") }},
-	} {
-		var e error
-		if p, msg := core.Guard(func() { e = probe.f() }); p {
-			s.Bad = append(s.Bad, probe.name+" panicked: "+strings.SplitN(msg, "\n", 2)[0])
-			return
-		}
-		if e == nil {
-			s.Bad = append(s.Bad, probe.name+" reported success")
-			return
-		}
-		s.Checks++
-	}
-	if after := s.Observe(); fmt.Sprint(after.Mem, after.IDs, after.Locked) != fmt.Sprint(before.Mem, before.IDs, before.Locked) {
-		s.Bad = append(s.Bad, fmt.Sprintf("operations without a key changed what the shim or the agent holds: %v %v -> %v %v", before.Mem, before.IDs, after.Mem, after.IDs))
-		return
-	}
 	var sg []ssh.Signer
 	var err error
 	if p, msg := core.Guard(func() { sg, err = s.Shim.Signers() }); p {
